@@ -228,19 +228,19 @@ with for_passes (fuel : nat) (cond : option sexpr) (post : option fpost) (body :
       match run_nodes f sc body with
       | TOk o SigBreak sc1 => TOk o SigNormal sc1
       | TOk o _ sc1 =>
+        let step (r : sres) (x : bytes) : option (option scopes) :=
+          match r with SVal v => Some (assign sc1 x v) | SErr => Some None | SUnspec => None end in
         let after :=
           match post with
-          | None => Some sc1
-          | Some (PostInc x) =>
-            match ev sc1 (XInc (XVar x)) with SVal v => assign sc1 x v | _ => None end
-          | Some (PostDec x) =>
-            match ev sc1 (XDec (XVar x)) with SVal v => assign sc1 x v | _ => None end
-          | Some (PostAssign x e) =>
-            match ev sc1 e with SVal v => assign sc1 x v | _ => None end
+          | None => Some (Some sc1)
+          | Some (PostInc x) => step (ev sc1 (XInc (XVar x))) x
+          | Some (PostDec x) => step (ev sc1 (XDec (XVar x))) x
+          | Some (PostAssign x e) => step (ev sc1 e) x
           end in
         match after with
-        | None => TFail
-        | Some sc2 =>
+        | None => TUnprintable
+        | Some None => TFail
+        | Some (Some sc2) =>
           match for_passes f cond post body sc2 with
           | TOk o2 s sc3 => TOk (o ++ o2) s sc3
           | r => r
